@@ -82,7 +82,7 @@ m = {
     ],
     "checks": checks,
     "not_applicable": [],
-    "notes": "Exit codes of every check: 0 held / 1 VIOLATION line / 2 inconclusive (never folded into the others). Known findings: /verif/known_findings.json (open: KF-C08 only; 15 defects were repaired by fix: commits, listed there as fixed), printed as KNOWN-FINDING lines only when the exact classifier recognises the execution. Seeded faults used to validate the monitors: /verif/seeded/.",
+    "notes": "Exit codes of every check: 0 held / 1 VIOLATION line / 2 inconclusive (never folded into the others). Known findings: /verif/known_findings.json (open: KF-C08 only; 15 defects were repaired by 14 fix: commits, listed there as fixed), printed as KNOWN-FINDING lines only when the exact classifier recognises the execution. Seeded faults used to validate the monitors: /verif/seeded/.",
 }
 json.dump(m, open(os.path.join(V, "MANIFEST.json"), "w"), indent=1, ensure_ascii=False)
 print("wrote MANIFEST.json with", len(checks), "checks; hook commits", hooks)
